@@ -101,7 +101,8 @@ class FnScan(ast.NodeVisitor):
         self.generic_visit(node)
 
 
-def scan(repo="/repo"):
+def scan(repo=None):
+    repo = repo or os.environ.get("VERIF_REPO", "/repo")
     sites, writes = [], []
     for path in sorted(glob.glob(os.path.join(repo, "permute", "*.py"))):
         mod = os.path.basename(path)[:-3]
